@@ -390,6 +390,35 @@ pub const CAL_NAMES: &[&str] = &[
     "mum",
 ];
 
+/// The holidays and week mask of a built-in named calendar as an explicit calendar recipe
+/// (an exact copy of the built-in, held as a plain `Cal`).
+pub fn builtin_as_spec(name: &str) -> Option<CalSpec> {
+    use rateslib::json::JSON;
+    let cal = rateslib::calendars::get_calendar_by_name(name).ok()?;
+    let text = cal.to_json().ok()?;
+    let v: serde_json::Value = serde_json::from_str(&text).ok()?;
+    let hols = v.get("holidays")?.as_array()?;
+    let mut holidays = Vec::new();
+    for h in hols {
+        let d = chrono::NaiveDateTime::parse_from_str(h.as_str()?, "%Y-%m-%dT%H:%M:%S").ok()?;
+        holidays.push((d.and_utc().timestamp(), 0u32));
+    }
+    let mut mask = Vec::new();
+    for m in v.get("week_mask")?.as_array()? {
+        mask.push(match m.as_str()? {
+            "Mon" => 0u8,
+            "Tue" => 1,
+            "Wed" => 2,
+            "Thu" => 3,
+            "Fri" => 4,
+            "Sat" => 5,
+            _ => 6,
+        });
+    }
+    mask.sort();
+    Some(CalSpec { holidays, mask })
+}
+
 pub fn gen_named(rng: &mut Rng) -> String {
     let part = |rng: &mut Rng| -> String {
         // mostly 1..3 names; sometimes a long list (repeats allowed: "tgt,tgt" is legal)
